@@ -53,6 +53,7 @@ def alph_c05():
     return [
         select(item("k"), item("a")), select(item("b"), item("k"), item("a")),
         select(item(col("a"), "p"), item(col("k"), "q")),
+        select(item(col("a"), "A"), item("b")),   # alias differing from the source column by case only
         select(item(bin_("+", a, lit(1)), "x"), item("k")),
         select(item(bin_("+", a, lit(1))), item("k")),                # unnamed computed column
         derive(item(bin_("*", b, lit(2)), "y")), derive(item(bin_("*", b, lit(2)))),
@@ -69,15 +70,53 @@ def alph_c05():
         append(U3),
     ]
 
+def alph_c10():
+    base = alph_c01()
+    extra = [
+        # ambiguous bare names in a join condition
+        join("inner", [from_("u")], bin_("==", k, k)),
+        join("left", [from_("u")], bin_("==", a, c), explicit=True),
+        # surplus positional argument
+        bad("surplus-arg", "take 2 3"), bad("surplus-arg", "filter (a > 0) (b > 0)"),
+        bad("surplus-arg", "sort {a} {b}"), bad("surplus-arg", "select {k} {a}"),
+        bad("surplus-arg", "derive {x = (math.abs a b)}"),
+        # unknown named argument
+        bad("unknown-named-arg", "take 5 offset:2"), bad("unknown-named-arg", "sort {a} desc:true"),
+        bad("unknown-named-arg", "filter (a > 0) strict:true"),
+        bad("unknown-named-arg", "derive {x = (math.round 1 a digits:2)}"),
+        bad("unknown-named-arg", "join u (==k) sid:left"),
+        # scalar where a relation is required / relation where a scalar is required
+        bad("scalar-as-relation", "join 5 (==k)"), bad("scalar-as-relation", "append 3"),
+        bad("scalar-as-relation", "join (a + 1) (==k)"),
+        bad("relation-as-scalar", "filter (from u)"), bad("relation-as-scalar", "derive {x = (from u | take 1)}"),
+    ]
+    return base[:14] + base[14:20] + extra
+
+def slots_c03():
+    """sort -> order-retaining step -> take -> order-resetting / windowing step (depth 5 chain)"""
+    ta, tk = col("a", "t"), col("k", "t")
+    return [
+        at(sort(("desc", "a"), ("asc", "k")), 2), at(sort(("asc", "b"), ("desc", "k")), 2), at(sort(("desc", "k")), 2),
+        at(join("left", [from_("u")], eqcol("k"), explicit=True), 3), at(join("inner", [from_("u")], eqcol("a")), 3),
+        at(select(item("k"), item("b"), item("a")), 3), at(derive(item(bin_("*", b, lit(2)), "x")), 3),
+        at(filter_(bin_(">", k, lit(1))), 3),
+        at(take(2, 3, True), 4), at(take(1, 2), 4), at(take(2, INF, True), 4),
+        at(group(["b"], [aggregate(item(agg("sum", col("a", "t")), "s"))]), 5),
+        at(group(["b"], [aggregate(item(agg("sum", col("a")), "s"))]), 5),
+        at(aggregate(item(agg("count", b), "n"), item(agg("max", b), "m")), 5),
+        at(select(item("b")), 5), at(take(1, 1), 5),
+        at(derive(item(agg("row_number", b), "rn")), 5),
+    ]
+
 CONFIG = {
     "C01": dict(relevant={"rows", "ExecError", "Panic", "rejected-wellformed"}, alphabet=alph_c01,
                 gen=dict(), depth={"quick": 4, "thorough": 5}, nrand={"quick": 600, "thorough": 12000}),
-    "C03": dict(relevant={"order", "rows", "ExecError"}, alphabet=alph_c03,
+    "C03": dict(relevant={"order", "rows", "ExecError"}, alphabet=alph_c03, slots=(slots_c03, 5),
                 gen=dict(sort_bias=0.35, p_group=0.1, p_append=0.03), depth={"quick": 4, "thorough": 5},
                 nrand={"quick": 500, "thorough": 10000}),
     "C05": dict(relevant={"frame", "rqframe"}, alphabet=alph_c05,
                 gen=dict(p_join=0.25), depth={"quick": 4, "thorough": 5}, nrand={"quick": 500, "thorough": 10000}),
-    "C10": dict(relevant={"accepted-illformed"}, alphabet=alph_c01,
+    "C10": dict(relevant={"accepted-illformed"}, alphabet=alph_c10,
                 gen=dict(), depth={"quick": 4, "thorough": 5}, nrand={"quick": 300, "thorough": 5000}),
 }
 
@@ -112,6 +151,17 @@ def check(pid, tier):
         s = res["side"].get(p["id"], {})
         samples.append({"prql": s.get("src", "").split("}\n", 1)[-1], "sql": s.get("sql"), "model_status": p.get("status")})
     nmc = len(progs)
+    # (1b) slot model: one alphabet per pipeline position (deep chains without the blow-up)
+    if "slots" in cfg:
+        sl, sd = cfg["slots"]
+        m2 = model([from_("t")], sl(), sd)
+        progs2, info2 = l1.mc_generate(f"{pid}-slots", m2, dbset, workers=8)
+        states += info2["distinct"]; transitions += info2["generated"]
+        res1b = l1check.run(rep, f"{pid}-slots", progs2, dbset, cfg["relevant"])
+        traces += res1b["accepted"] + res1b["rejected"]; skipped += res1b["skipped"]; events += res1b["events"]
+        for kk, vv in res1b["by_what"].items():
+            by_what[kk] = by_what.get(kk, 0) + vv
+        nmc += len(progs2)
     # (2) seeded random programs beyond the bound
     g = gen.G(seed(), **cfg["gen"])
     rprogs = [g.program(i) for i in range(cfg["nrand"][tier])]
